@@ -394,9 +394,11 @@ class State:
         goal = self.cond(goal)
         g = smt.simp(goal)
         top_ = self.cfg.get("contract")
-        if top_ is not None and getattr(top_, "abstract_callees", False) and kind != "termination":
-            # termination view: only the measure obligations are generated; everything else about this function is the business
-            # of its other contracts.  The condition is assumed, as it would be after a successful check.
+        if top_ is not None and getattr(top_, "abstract_callees", False) and \
+                kind not in (("termination",) if getattr(top_, "decreases", None) else ("post", "frame")):
+            # abstracted view (callees without contract have any effect): only the measure obligations (termination view) or the
+            # postconditions and frame are generated; everything else about this function is the business of its other contracts.
+            # The condition is assumed, as it would be after a successful check.
             if not z3.is_true(g):
                 self.pc.append(g)
                 self.sadd(g)
@@ -976,6 +978,10 @@ class Interp:
 
     def dict_set(self, d: SV, k: SV, v: SV):
         st = self.st
+        if st.cfg.get("ground") and T.strip_opt(d.ty).k in ("dict", "set") and not st.spec_depth:
+            # model search: without the data-structure invariant the solver may choose a "ghost member" (membership true, size 0) for a
+            # dictionary that is only ever written, and the store below would then not grow it
+            self.assume_dict_wf(d)
         r = smt.rid(d.t)
         has = z3.Select(st.arr("dhas"), r)
         was = z3.Select(has, k.t)
@@ -1007,7 +1013,10 @@ class Interp:
         cache = st.cfg.setdefault("_wf_cache", set())
         if ck in cache:
             return
-        cache.add(ck)
+        # remembered as "already stated" only when stated unconditionally: under a guard (a conditional expression, an expanded
+        # quantifier body `j < len(d) => ...`) the facts hold only there, and a later unguarded use must state them again
+        if not st.guards:
+            cache.add(ck)
         hoist = None
         if st.binder_asms:
             # inside a quantifier body: facts about a dict that does not depend on the bound variables are stated
@@ -1051,7 +1060,15 @@ class Interp:
         p = st.fresh("delpos", smt.I)
         st.assume(z3.Implies(was, z3.And(p >= 0, p < sz, z3.Select(keys, p) == k.t)))
         j = z3.Int("j!del")
-        st.setarr("dkeys", z3.Store(st.arr("dkeys"), r, z3.If(was, z3.Lambda([j], z3.If(j < p, z3.Select(keys, j), z3.Select(keys, j + 1))), keys)), r)
+        Kg = st.cfg.get("ground")
+        if Kg:
+            # bounded mode: at most Kg keys, so the shift is a finite chain of stores (no lambda: the solver returns models, not `unknown`)
+            shifted = keys
+            for x_ in range(Kg + 1):
+                shifted = z3.Store(shifted, x_, z3.If(x_ < p, z3.Select(keys, x_), z3.Select(keys, x_ + 1)))
+        else:
+            shifted = z3.Lambda([j], z3.If(j < p, z3.Select(keys, j), z3.Select(keys, j + 1)))
+        st.setarr("dkeys", z3.Store(st.arr("dkeys"), r, z3.If(was, shifted, keys)), r)
         st.setarr("dsz", z3.Store(st.arr("dsz"), r, smt.simp(z3.If(was, sz - 1, sz))))
         st.setarr("dhas", z3.Store(st.arr("dhas"), r, z3.Store(has, k.t, False)))
 
@@ -1284,7 +1301,7 @@ class Interp:
         i = z3.Int("i!cat")
         ea = z3.Select(st.arr("lel"), smt.rid(a.t))
         eb = z3.Select(st.arr("lel"), smt.rid(b.t))
-        arr = z3.Lambda([i], z3.If(i < la, z3.Select(ea, i), z3.Select(eb, i - la)))
+        arr = smt.index_map(st, i, z3.If(i < la, z3.Select(ea, i), z3.Select(eb, i - la)))
         st.heap["llen"] = z3.Store(st.arr("llen"), r, smt.simp(la + lb))
         st.heap["lel"] = z3.Store(st.arr("lel"), r, arr)
         return SV(smt.mk_ref(r), T.LIST(T.join(self.list_elty(a), self.list_elty(b))))
@@ -1385,6 +1402,13 @@ class Interp:
                     st.oblige("safety", "none_deref.__contains__", z3.Not(smt.is_none(cont.t)), 0)
                 res = self.call_function(m, SV(cont.t, T.strip_opt(cont.ty), cont.c), [item], {}, Frame(m.module, m.cls), None)
                 return self.truthy(res)
+        if k == "any":
+            # an untyped value (e.g. an entry of a Dict[str, Any]): decided when it is a dictionary or a set, unknown otherwise
+            cl = z3.Select(st.arr("cls"), smt.rid(cont.t))
+            isd = z3.And(smt.is_ref(cont.t), z3.Or(cl == DICT_CID, cl == SET_CID))
+            dh = self.dict_has(SV(cont.t, T.DICT(T.ANY, T.ANY)), item)
+            st.n_fresh += 1
+            return z3.If(isd, dh, st.fresh("any_in", smt.B))
         raise Refuse(f"`in` on value of type {cont.ty}")
 
     def ev_NamedExpr(self, node, fr):
@@ -1404,9 +1428,17 @@ class Interp:
         return self.getattr(base, node.attr, fr, node)
 
     def attr_type(self, ci: ClassInfo, name: str, fr: Optional[Frame]):
-        t = T.field_type(ci, name)
-        if t is not None:
-            return t
+        # a typing given by the contracts for a subclass refines the annotation inherited from a base class (looked up in MRO order)
+        for c in ci.mro():
+            key = f"{c.name}.{name}"
+            if (fr is not None and fr.contract is not None and key in fr.contract.attr_types) or key in REG.attr_types:
+                break
+            if name in c.fields and c.fields[name][0] is not None:
+                return T.field_type(ci, name)
+        else:
+            t = T.field_type(ci, name)
+            if t is not None:
+                return t
         for c in ci.mro():
             key = f"{c.name}.{name}"
             s = None
@@ -1715,7 +1747,7 @@ class Interp:
                 j = z3.Int("j!rev")
                 r = st.new_ref(LIST_CID)
                 st.heap["llen"] = z3.Store(st.arr("llen"), r, n_)
-                st.heap["lel"] = z3.Store(st.arr("lel"), r, z3.Lambda([j], z3.Select(src, n_ - 1 - j)))
+                st.heap["lel"] = z3.Store(st.arr("lel"), r, smt.index_map(st, j, z3.Select(src, n_ - 1 - j)))
                 return SV(smt.mk_ref(r), T.strip_opt(base.ty))
             raise Refuse("slice step")
         if isinstance(base, PTuple):
@@ -1757,7 +1789,7 @@ class Interp:
         hi = smt.simp(bound(sl.upper, n))
         i = z3.Int("i!sl")
         src = z3.Select(st.arr("lel"), smt.rid(l.t))
-        return z3.Lambda([i], z3.Select(src, i + lo)), smt.simp(z3.If(hi > lo, hi - lo, 0))
+        return smt.index_map(st, i, z3.Select(src, i + lo)), smt.simp(z3.If(hi > lo, hi - lo, 0))
 
     # ---------------------------------------------------------------- comprehension / generator support
     def ev_GeneratorExp(self, node, fr):
